@@ -424,23 +424,30 @@ func (m *Manager) FlushMemTables() error {
 	// Track operation
 	m.stats.TrackOperation(stats.OpFlush)
 
-	// If no immutable MemTables, flush the active one if needed
-	if len(m.immutableMTs) == 0 {
+	// Writers append to the immutable list and use the WAL under the storage
+	// lock: take the tables over and switch the WAL under that lock too
+	m.mu.Lock()
+	toFlush := m.immutableMTs
+	if len(toFlush) == 0 {
+		// If no immutable MemTables, flush the active one if needed
+		// (in testing, we might want to force flush the active table too)
 		tables := m.memTablePool.GetMemTables()
-		if len(tables) > 0 && tables[0].ApproximateSize() > 0 {
-			// In testing, we might want to force flush the active table too
-			// Create a new WAL file for future writes
-			if err := m.rotateWAL(); err != nil {
-				m.stats.TrackError("wal_rotate_error")
-				return fmt.Errorf("failed to rotate WAL: %w", err)
-			}
-
-			if err := m.flushMemTable(tables[0]); err != nil {
-				m.stats.TrackError("memtable_flush_error")
-				return fmt.Errorf("failed to flush active MemTable: %w", err)
-			}
-
+		if len(tables) == 0 || tables[0].ApproximateSize() == 0 {
+			m.mu.Unlock()
 			return nil
+		}
+
+		// Create a new WAL file for future writes
+		if err := m.rotateWAL(); err != nil {
+			m.mu.Unlock()
+			m.stats.TrackError("wal_rotate_error")
+			return fmt.Errorf("failed to rotate WAL: %w", err)
+		}
+		m.mu.Unlock()
+
+		if err := m.flushMemTable(tables[0]); err != nil {
+			m.stats.TrackError("memtable_flush_error")
+			return fmt.Errorf("failed to flush active MemTable: %w", err)
 		}
 
 		return nil
@@ -448,20 +455,24 @@ func (m *Manager) FlushMemTables() error {
 
 	// Create a new WAL file for future writes
 	if err := m.rotateWAL(); err != nil {
+		m.mu.Unlock()
 		m.stats.TrackError("wal_rotate_error")
 		return fmt.Errorf("failed to rotate WAL: %w", err)
 	}
+	m.immutableMTs = make([]*memtable.MemTable, 0)
+	m.mu.Unlock()
 
 	// Flush each immutable MemTable
-	for i, imMem := range m.immutableMTs {
+	for i, imMem := range toFlush {
 		if err := m.flushMemTable(imMem); err != nil {
+			// Keep the tables that are not flushed yet for the next attempt
+			m.mu.Lock()
+			m.immutableMTs = append(append([]*memtable.MemTable{}, toFlush[i:]...), m.immutableMTs...)
+			m.mu.Unlock()
 			m.stats.TrackError("memtable_flush_error")
 			return fmt.Errorf("failed to flush MemTable %d: %w", i, err)
 		}
 	}
-
-	// Clear the immutable list - the MemTablePool manages reuse
-	m.immutableMTs = m.immutableMTs[:0]
 
 	// Track flush count
 	m.stats.TrackFlush()
